@@ -167,15 +167,20 @@ def h2_case(rng, cid):
     return Case(cid, [op], dict(kind="h2", regs=len(regs)))
 
 
+H1_VERSIONS = ["HTTP/1.1"] * 10 + ["HTTP/1.0"] * 4 + ["HTTP/1.2", "http/1.1", "HTTP/0.9", "HTTP/2.0", "HTTP/1.10", "HTTP/1", ""]
+
+
 def valid_request(rng):
-    m = rng.choice(["GET", "POST", "PUT", "HEAD"])
+    m = rng.choice(["GET", "POST", "PUT", "HEAD", "DELETE", "OPTIONS", "PATCH", "get", "M-SEARCH"])
     t = rng.choice(["/", "/a?b", "/x/y", "/admin"])
     host = rng.choice(["x", "example.com", "a.b:8080"])
     extra = rng.sample([("Accept", "*/*"), ("X-A", "1"), ("User-Agent", "u"), ("Cookie", "a=b; c=d")], rng.randint(0, 2))
-    kind = rng.choice(["cl0", "cl", "chunked", "chunked-trailers"])
+    kind = rng.choice(["cl0", "cl", "chunked", "chunked-trailers", "unframed", "unframed"])
     hs = [("Host", host)] + extra
     body = b""
-    if kind == "cl0":
+    if kind == "unframed":
+        pass          # neither Content-Length nor Transfer-Encoding: no body (RFC 9112 6.3), whatever follows is the next request
+    elif kind == "cl0":
         hs.append(("Content-Length", "0"))
     elif kind == "cl":
         data = rng.choice(["a", "hello", "GET / HTTP/1.1\r\n\r\n"])
@@ -201,14 +206,14 @@ def render(m, t, hs, body, eol=b"\r\n", version="HTTP/1.1"):
     return out + eol + body
 
 
-def mutate(rng, m, t, hs, body):
+def mutate(rng, m, t, hs, body, version="HTTP/1.1"):
     """one smuggling-grammar mutation; returns raw bytes"""
     k = rng.choice(["clte", "dupcl", "dupcl-diff", "te-space", "xchunked", "te-list", "barelf", "nul", "obsfold", "bigchunk",
                     "chunkext", "signcl", "spacecl", "hexcl", "emptyname", "nocl", "nohost", "duphost", "tabline", "http10",
-                    "absform", "te-dup", "cl-comma", "lf-in-value", "crchunk", "te-case", "none"])
+                    "absform", "te-dup", "cl-comma", "lf-in-value", "crchunk", "te-case", "none", "nocl", "nocl"])
     hs = list(hs)
     names = [n.lower() for n, _ in hs]
-    eol, version = b"\r\n", "HTTP/1.1"
+    eol = b"\r\n"
     if k == "clte":
         hs.append(("Content-Length", "3") if "transfer-encoding" in names else ("Transfer-Encoding", "chunked"))
         if "transfer-encoding" not in names:
@@ -272,11 +277,14 @@ def h1_case(rng, cid):
     muts = []
     for i in range(n):
         m, t, hs, body = valid_request(rng)
+        version = rng.choice(H1_VERSIONS)
+        if version != "HTTP/1.1":
+            muts.append("version")
         if rng.random() < 0.55:
-            r, k = mutate(rng, m, t, hs, body)
+            r, k = mutate(rng, m, t, hs, body, version)
             muts.append(k)
         else:
-            r = render(m, t, hs, body)
+            r = render(m, t, hs, body, version=version)
         raw += r
     ops = []
     if rng.random() < 0.7:
@@ -339,6 +347,11 @@ def bb_cases(rng, tier):
         b"POST / HTTP/1.1\r\nHost: x\r\nContent-Length: +3\r\n\r\nabcGET /s HTTP/1.1\r\nHost: x\r\n\r\n",
         b"POST /t HTTP/1.1\r\nHost: x\r\nTransfer-Encoding: chunked\r\n\r\n3\r\nabc\r\n0\r\nX-Forwarded-For: 6.6.6.6\r\nSozu-Id: spoof\r\nX-T: 1\r\n\r\n",
         b"GET / HTTP/1.1\r\nHost: x\r\nX-Forwarded-For: 6.6.6.6\r\nSozu-Id: spoof\r\nX-Request-Id: a\r\nX-Request-Id: b\r\n\r\n",
+    ]
+    fixed += [
+        b"GET / HTTP/1.0\r\nHost: x\r\n\r\nGET /smuggled HTTP/1.1\r\nHost: not-routed.example\r\n\r\n",
+        b"POST / HTTP/1.0\r\nHost: x\r\n\r\nGET /smuggled HTTP/1.0\r\nHost: x\r\n\r\n",
+        b"DELETE /a HTTP/1.1\r\nHost: x\r\n\r\nOPTIONS /b HTTP/1.0\r\nHost: x\r\n\r\nget /c HTTP/1.1\r\nHost: x\r\n\r\n",
     ]
     out = []
     for i, raw in enumerate(fixed):
